@@ -3,7 +3,7 @@
    With [Lbl_proofs] (the print / parse round trip): when every object's key is what nodeSelectorKey computes from its selector,
    every key of the map of every reachable world is read back by labels.Parse -- matchCIDRLabels fails on no key, and the
    collection of matching ClusterCIDRs for a node never fails because of some ClusterCIDR's selector (what D23 broke). *)
-From NIPAM Require Import Sys Geom_proofs Pool_proofs Prio_proofs Alloc_proofs Inv_proofs Sys_proofs World_proofs Complete_proofs Resv_proofs Path_proofs NoPanic_proofs Svc_proofs Uniq_proofs Default_proofs Sel Lbl Sel_proofs Lbl_proofs.
+From NIPAM Require Import Sys Geom_proofs Pool_proofs Prio_proofs Alloc_proofs Inv_proofs Sys_proofs World_proofs Complete_proofs Resv_proofs Path_proofs NoPanic_proofs Svc_proofs Term_proofs Uniq_proofs Default_proofs Sel Lbl Sel_proofs Lbl_proofs.
 From Coq Require Import Lia.
 Open Scope N_scope.
 
@@ -471,4 +471,28 @@ Proof.
   cbv zeta. split.
   - repeat constructor. apply computed_key_ok.
   - vm_compute. reflexivity.
+Qed.
+
+(* C02 / C05 with the selector's own requirements: every PATCH of every step of every history carries blocks of an entry that is
+   not terminating and whose key is nodeSelectorKey of a requirement list EVERY requirement of which the node's labels satisfy
+   (or it is the catch-all default key) -- "whose selector the node's labels satisfy", with no parser in the statement *)
+Theorem every_assignment_respects_the_selectors_requirements lab ops o w' ob :
+  Forall wf_op ops -> Forall op_keys_computed ops ->
+  let w := run sel_parse lab init_world ops in
+  step sel_parse lab w o = (w', ob) ->
+  forall nm cs out, In (FxPatch nm cs out) (ob_fx ob) ->
+  exists m node p e, w_ctl w = Some m /\ nm = n_name node /\ get_entry m p = Some e /\ cc_term e = false /\
+    exists rs, selector_key rs = Some (fst p) /\ (fst p = default_key \/ forallb (req_matches (n_labels node)) rs = true).
+Proof.
+  intros Hw Hk w Hs nm cs out He.
+  destruct (history_assignment_ok sel_parse lab ops o w' ob Hw Hs nm cs out He) as (m & node & Em & En & p & e & Hg & Ht & Hsel & _).
+  exists m, node, p, e. split; [exact Em|]. split; [exact En|]. split; [exact Hg|]. split; [exact Ht|].
+  destruct (every_key_is_read_back_in_every_history lab ops m Hk Em) as (A & _).
+  assert (Hin : exists l, In (fst p, l) m).
+  { unfold get_entry in Hg. destruct (find_key (fst p) m) as [l|] eqn:Ef; [|discriminate]. exists l. exact (find_key_In _ _ _ Ef). }
+  destruct Hin as (l & Hin). destruct (A _ _ Hin) as (rs & Hrs & Hm). exists rs. split; [exact Hrs|].
+  destruct Hsel as [Hd|(rs' & Hp & Hok)]; [left; exact Hd|right].
+  specialize (Hm (n_labels node)). unfold match_key in Hm. rewrite Hp in Hm.
+  assert (Heq : match_reqs (n_labels node) rs' = match_reqs (n_labels node) rs) by congruence.
+  apply match_reqs_all. rewrite <- Heq. exact Hok.
 Qed.
